@@ -16,6 +16,7 @@ MUTANTS = [
     {"name": "revert-28f56ca-registry-priority0-order", "revert": "28f56ca", "props": ["C16"]},
     {"name": "revert-b9950c3-xor-threads-value", "revert": "b9950c3", "props": ["C09"]},
     {"name": "revert-b467353-enum-unhashable", "revert": "b467353", "props": ["C12"]},
+    {"name": "revert-981e4a4-depth-falsy-route", "revert": "981e4a4", "props": ["C18"]},
     # ---- C01 ------------------------------------------------------------------------------
     {"name": "c01-seq-first-element-unconverted", "props": ["C01"], "edits": [{"file": R, "old": """                try:
                     result.append(
